@@ -1,0 +1,5 @@
+//go:build !verif
+
+package event
+
+func verifYield(point int) {}
